@@ -91,6 +91,11 @@ def module_const(project: Project, modname: str, name: str) -> Any:
     m = project.module(modname)
     val = project.module_assign(m, name)
     if val is None:
+        # moved to another module and imported back under the same name
+        kind, obj = project.resolve_name(modname, name)
+        if kind == "const":
+            m, val = obj
+    if val is None:
         raise AnalysisError(f"anchor vanished: constant {modname}.{name}")
     try:
         return fold(project, m, val)
